@@ -27,7 +27,7 @@ var stdInterp = []string{
 	"sort", "slices", "strings", "bytes", "unicode", "unicode/utf8", "unicode/utf16", "strconv", "errors",
 	"path", "path/filepath", "math", "math/bits", "cmp", "bufio", "encoding/csv", "io", "iter", "maps",
 	"internal/stringslite", "internal/itoa", "internal/oserror", "context", "container/list", "container/heap",
-	"io/fs", "internal/filepathlite", "internal/bytealg", "encoding/hex", "encoding/binary",
+	"io/fs", "internal/filepathlite", "internal/bytealg", "encoding/hex", "encoding/binary", "time",
 }
 
 // extraInterp lists third-party packages interpreted from source.
